@@ -85,7 +85,7 @@ def expand(op, kind):
         return [("add1", unhx(k)) for k in op[1]]
     if t == "ulist_nested":
         ks = [unhx(k) for k in op[1]]
-        return [("add1", k) for k in ks[: op[2]] + ks[:1] + ks[op[2]:]]
+        return [("add1", k) for k in ks[: op[2]] + [ops.nested_key(ks)] + ks[op[2]:]]
     if t == "udict":
         return [("add", unhx(k), int(v)) for k, v in op[1]]
     if t == "add":
